@@ -46,12 +46,12 @@ example :
 
 /-- time after dose is never negative when the (expanded) records of every individual are in
     chronological order -/
-theorem tad_nonneg' (cfg : Cfg) (ds : List Rec) (hc : Chrono (expand cfg ds)) :
-    ∀ p ∈ addTad cfg ds, 0 ≤ p.2 := tad_nonneg cfg ds hc
+theorem tad_nonneg (cfg : Cfg) (ds : List Rec) (hc : Chrono (expand cfg ds)) :
+    ∀ p ∈ addTad cfg ds, 0 ≤ p.2 := tad_nonneg_aux cfg ds hc
 
 /-- time after dose is zero at every dose record, for every dataset -/
-theorem tad_zero_at_dose' (cfg : Cfg) (ds : List Rec) :
-    ∀ p ∈ addTad cfg ds, isDose p.1 = true → p.2 = 0 := tad_zero_at_dose cfg ds
+theorem tad_zero_at_dose (cfg : Cfg) (ds : List Rec) :
+    ∀ p ∈ addTad cfg ds, isDose p.1 = true → p.2 = 0 := tad_zero_at_dose_aux cfg ds
 
 /-- frame: the returned records are exactly the (non-expanded) records, each with all its
     values — as a multiset; the order is NOT kept (records are regrouped by ascending id and
@@ -63,14 +63,14 @@ theorem tad_frame_records (cfg : Cfg) (ds : List Rec) :
 /-! ## expand_additional_doses -/
 
 /-- every original record is kept exactly once with all its fields unchanged -/
-theorem expand_preserves_records' (cfg : Cfg) (ds : List Rec) (h : cfg.hasAddl = true)
+theorem expand_preserves_records (cfg : Cfg) (ds : List Rec) (h : cfg.hasAddl = true)
     (hne : ∀ r ∈ ds, r.expanded = false) :
-    ((expand cfg ds).filter (fun r => !r.expanded)).Perm ds := expand_preserves_records cfg ds h hne
+    ((expand cfg ds).filter (fun r => !r.expanded)).Perm ds := expand_preserves_records_aux cfg ds h hne
 
 /-- the total administered amount: Σ AMT after = Σ AMT·(ADDL+1) before -/
-theorem expand_total_amount' (cfg : Cfg) (ds : List Rec) (h : cfg.hasAddl = true) :
+theorem expand_total_amount (cfg : Cfg) (ds : List Rec) (h : cfg.hasAddl = true) :
     ratSum ((expand cfg ds).map (·.amt)) = ratSum (ds.map (fun r => r.amt * ((r.addl : Rat) + 1))) :=
-  expand_total_amount cfg ds h
+  expand_total_amount_aux cfg ds h
 
 theorem expand_record_count (cfg : Cfg) (ds : List Rec) (h : cfg.hasAddl = true) :
     (expand cfg ds).length = ((ds.map (fun r => r.addl + 1)).sum) := expand_length cfg ds h
